@@ -355,7 +355,10 @@ pub fn doc_rewrite(content: &str, salt: usize) -> String {
         }
         out.push_str(rest);
         out
-    } else if let Some(p) = content.find("export ") {
+    } else if let (Some(p), true) = (content.find("export "), content.len() < 60_000) {
+        // (not in front of the tables of the LONG projects: a doc comment on an enum of 39 000 members makes a build take
+        // 2.7 s instead of 0.16 s - quadratic in the number of members, DESIGN 9.14 - and ten such builds in one
+        // checkpoint look like a stall to the watchdog)
         format!("{}/** revision {} wrote this */\n{}", &content[..p], salt, &content[p..])
     } else {
         format!("{}\n// revision {}\n", content, salt)
